@@ -62,7 +62,7 @@ def bytes_lp(bs):
 def gen_case(rng):
     adv = rng.random() < 0.4
     op = rng.choice([1, 1, 2, 2, 3, 4, 4, 5, 5, 6, 7, 7, 7, 8, 8, 8,
-                     10, 11, 12, 13, 14, 15, 16, 17, 18, 19])
+                     10, 11, 12, 13, 14, 15, 16, 17, 18, 19, 20, 20, 20, 21, 21, 22])
     if op == 1:
         lc = len_cap(rng)
         n = rng.choice([lc[1], lc[1] + 3, rng.randrange(0, 40)])
@@ -168,14 +168,59 @@ def gen_case(rng):
         return [18] + bytes_lp(d) + [pos] + payload(rng, rng.randrange(0, 12))
     if op == 19:
         return [19, rng.randrange(0, 100)] + len_cap(rng)
+    if op == 20:
+        ms = members(rng)
+        total = sum(cp for _, cp in ms)
+        n = rng.choice([total, total, total + 3, rng.randrange(0, total + 1), rng.randrange(0, 40)])
+        return ([20] + enc_members(ms) + enc_sched(sched(rng, min(n, total), adv, maxlen=20))
+                + payload(rng, n))
+    if op == 21:
+        ms = members(rng)
+        total = sum(cp for _, cp in ms)
+        n = rng.choice([total, total + 2, rng.randrange(0, total + 1), rng.randrange(0, 30)])
+        pos = rng.choice([0, 0, 1, 3, n, n + 2])
+        return [21, pos] + enc_members(ms) + payload(rng, n + (pos if rng.random() < 0.6 else 0))
+    if op == 22:
+        ms = members(rng)
+        s1 = sched(rng, 8, adv, maxlen=3)[:1] or [(2, 0)]
+        return [22] + enc_members(ms) + [s1[0][0], s1[0][1]] + payload(rng, rng.randrange(0, 12))
     raise AssertionError(op)
+
+
+def members(rng):
+    """(len, cap) of the Vec<u8> members of a vectored buffer: 65 % in sequential-fill order
+    (fresh, or full.. partial empty..), 35 % arbitrary fill states; empty members and members
+    of capacity 0 included"""
+    nm = rng.choice([0, 1, 1, 2, 2, 3, 3, 4, 5])
+    caps = [rng.choice([0, 1, 2, 3, 4, 5, 8]) for _ in range(nm)]
+    r = rng.random()
+    if r < 0.40:
+        lens = [0] * nm
+    elif r < 0.65:
+        t = rng.randrange(0, sum(caps) + 1)
+        lens = []
+        for cp in caps:
+            k = min(t, cp)
+            lens.append(k)
+            t -= k
+    else:
+        lens = [rng.choice([0, cp, rng.randrange(0, cp + 1)]) for cp in caps]
+    return list(zip(lens, caps))
+
+
+def enc_members(ms):
+    out = [len(ms)]
+    for ln, cp in ms:
+        out += [ln, cp]
+    return out
 
 
 OP_NAMES = {1: "read_exact", 2: "read_to_end", 3: "append", 4: "write_all", 5: "copy",
             6: "take", 7: "BufWriter", 8: "BufReader", 10: "&[u8]::read", 11: "[u8]::read_at",
             12: "&[u8]::read_vectored", 13: "[u8]::read_vectored_at", 14: "Vec::write",
             15: "Vec::write_vectored", 16: "Vec::write_at", 17: "Vec::write_vectored_at",
-            18: "[u8]::write_at", 19: "Repeat::read"}
+            18: "[u8]::write_at", 19: "Repeat::read", 20: "read_vectored_exact",
+            21: "[u8]::read_vectored_exact_at", 22: "default read_vectored"}
 
 
 def generate(seed, n):
